@@ -13,6 +13,7 @@ CONSTANTS
   PerturbMode = "pure"
   HashMode = "set_order"
   SFSMode = "copies"
+  VectorMode = "copies"
   KernelMode = "stateless"
   MaxTable = 60
 SPECIFICATION Spec
